@@ -161,10 +161,8 @@ func (k Keeper) ValidateValidatorFinishUnstaking(ctx sdk.Ctx, validator types.Va
 	if !validator.IsUnstaking() {
 		return types.ErrValidatorStatus(k.codespace)
 	}
-	// sanity check
-	if validator.StakedTokens.LT(sdk.NewInt(k.MinimumStake(ctx))) {
-		return types.ErrValidatorStatus(k.codespace)
-	}
+	// whatever stake remains is returned: slashing below the minimum force-unstakes, so an unstaking
+	// validator can only be below the minimum because the parameter was raised meanwhile
 	return nil
 }
 
